@@ -282,6 +282,53 @@ def all_argument_writes(repo):
     return sorted(set(out))
 
 
+# ---- process-wide settings -------------------------------------------------------------------------------------------
+# a call that changes a setting of the interpreter or the process outlives the library call that made it (unless it is
+# undone on every path out, which the package never needs: on the pinned tree there is no such call at all)
+PROCESS_SETTERS = {
+    "sys": {"setrecursionlimit", "setswitchinterval", "settrace", "setprofile", "setdlopenflags", "set_int_max_str_digits",
+            "set_asyncgen_hooks", "set_coroutine_origin_tracking_depth"},
+    "warnings": {"simplefilter", "filterwarnings", "resetwarnings"}, "locale": {"setlocale"},
+    "os": {"chdir", "putenv", "unsetenv", "umask", "nice", "setuid", "setgid"}, "decimal": {"setcontext"},
+    "gc": {"disable", "enable", "set_threshold", "set_debug", "freeze"}, "random": {"seed", "setstate"},
+    "signal": {"signal", "alarm", "setitimer"}, "threading": {"settrace", "setprofile", "stack_size", "excepthook"},
+    "faulthandler": {"enable", "disable"}, "resource": {"setrlimit"}, "socket": {"setdefaulttimeout"}, "tracemalloc": {"start", "stop"},
+}
+
+
+def process_setting_calls(repo):
+    out = []
+    pkg = os.path.join(repo, "mo_sql_parsing")
+    for fn in sorted(os.listdir(pkg)):
+        if not fn.endswith(".py"):
+            continue
+        tree = ast.parse(open(os.path.join(pkg, fn), encoding="utf8").read())
+        mods, direct = {}, {}
+        for n in ast.walk(tree):
+            if isinstance(n, ast.Import):
+                for a in n.names:
+                    if a.name.split(".")[0] in PROCESS_SETTERS:
+                        mods[a.asname or a.name.split(".")[0]] = a.name.split(".")[0]
+            elif isinstance(n, ast.ImportFrom) and n.module and n.module.split(".")[0] in PROCESS_SETTERS:
+                for a in n.names:
+                    if a.name in PROCESS_SETTERS[n.module.split(".")[0]]:
+                        direct[a.asname or a.name] = "%s.%s" % (n.module.split(".")[0], a.name)
+        for n in ast.walk(tree):
+            if isinstance(n, ast.Call):
+                f = n.func
+                if isinstance(f, ast.Attribute) and isinstance(f.value, ast.Name) and f.attr in PROCESS_SETTERS.get(mods.get(f.value.id, ""), ()):
+                    out.append("%s:%s.%s" % (fn[:-3], mods[f.value.id], f.attr))
+                elif isinstance(f, ast.Name) and f.id in direct:
+                    out.append("%s:%s" % (fn[:-3], direct[f.id]))
+            elif isinstance(n, (ast.Assign, ast.AugAssign, ast.Delete)):
+                # os.environ[...] = ..., getcontext().prec = ..., sys.stdout = ...
+                for t in (n.targets if not isinstance(n, ast.AugAssign) else [n.target]):
+                    src = ast.unparse(t)
+                    if src.startswith(("os.environ", "sys.std", "sys.path", "sys.modules", "sys.excepthook", "sys.displayhook")) or "getcontext()" in src:
+                        out.append("%s:%s" % (fn[:-3], src.split("[")[0]))
+    return sorted(set(out))
+
+
 def extract(X, repo):
     pkg = os.path.join(repo, "mo_sql_parsing")
     trees = {}
@@ -588,6 +635,7 @@ def extract(X, repo):
         "global_rebinds": sorted("%s.%s" % x for x in global_rebinds),
         "cross_module_writes": sorted(written_elsewhere),
         "argument_writes": all_argument_writes(repo),
+        "process_setting_calls": process_setting_calls(repo),
     }
 
 
@@ -638,6 +686,9 @@ def gen_lean(X, lean_str):
     lines.append("")
     lines.append("/-- writes of `utils.scrub` and of the functions of `formatting.py` into objects they were given (parameters and their parts) -/")
     lines.append("def argumentWrites : List String := [%s]" % ", ".join(lean_str(x) for x in e.get("argument_writes", [])))
+    lines.append("")
+    lines.append("/-- calls in the package that change a setting of the interpreter or the process (module:setter) -/")
+    lines.append("def processSettingCalls : List String := [%s]" % ", ".join(lean_str(x) for x in e.get("process_setting_calls", [])))
     lines.append("")
     lines.append("/-- the expression `_parse` stores into every recorded NULL slot -/")
     lines.append("def nullSlotValue : String := %s" % lean_str(e.get("null_slot_value", "?")))
